@@ -434,6 +434,9 @@ func nativeReplay(h *Harness, o *CheckOpts, scratch string, cases []*replayCase)
 		rc.status = judgeReplay(rc)
 		if o.Verbose {
 			fmt.Fprintf(os.Stderr, "  replay %s %s %q -> %s\n", rc.entry, rc.f.Kind, rc.f.Label, rc.status)
+			if rc.status != "match" {
+				fmt.Fprintf(os.Stderr, "    inputs:%s\n    native output: %s\n", nondetSummary(rc.f.Nondets), tail(rc.out, 400))
+			}
 		}
 	}
 	return nil
